@@ -4,7 +4,7 @@ from contracts import message, agent, specs
 ID = "C45"
 A = "paramiko.agent."
 TARGETS = [A + "AgentKey.sign_ssh_data", A + "AgentSSH._send_message", A + "AgentSSH._read_all"]
-REPLAY = {"sign_ssh_data": "c45.replay_sign"}
+REPLAY = {"sign_ssh_data": "c45.replay_sign", "AgentKey": "c45.sign_twice"}
 
 
 def setup(E):
